@@ -264,6 +264,7 @@ def mode_session(req):
     set_xdg(req["xdg"])
     _logging_setup()
     keep = []            # objects stay referenced until the interpreter exits
+    left_open = []
     out = []
     for step in req["steps"]:
         if step["op"] == "peewee":
@@ -286,9 +287,12 @@ def mode_session(req):
         elif step["op"] == "sqlite":
             before = legacy_prints(req["xdg"])
             lst = listing(req["xdg"])
+            n_kept = len(keep)
             r = open_sqlite({"xdg": req["xdg"], "testing": step["testing"], "custom": step.get("custom")},
                             close=bool(step.get("close")), keep=keep)
             r["op"] = "sqlite"
+            if len(keep) > n_kept:
+                left_open.append((r, keep[-1]))
             r["listing_before"] = lst
             r["before"] = before
             r["after"] = legacy_prints(req["xdg"])
@@ -296,6 +300,12 @@ def mode_session(req):
             out.append(r)
         else:
             raise RuntimeError("bad step " + str(step))
+    # the stores that were left open, read once more after everything else has happened in this process
+    for r, st in left_open:
+        try:
+            r["final"] = dump_store(st)
+        except Exception as ex:  # noqa: BLE001
+            r["final"] = {"exc": type(ex).__name__}
     return out
 
 
